@@ -623,11 +623,13 @@ def _optimizer_construction(ctx, rid, repo):
 
 
 def _mle_history(ctx, rid, repo):
-    """infer/mle.py interpreted as a whole (every function of the module, memoising decorators honoured), four fits in one
-    process on ONE model object whose configuration is changed the documented way between the first and the second."""
+    """infer/mle.py interpreted as a whole (every function of the module, memoising decorators honoured) against a REAL
+    _ModelConfig holding real parameter sets: six fits in one process on one model object whose defaults are changed the
+    documented way and whose POI is moved (set_poi) in between."""
     from ..alg import NotHandled, RaisedInFragment
-    from ..objmodel import World
+    from ..objmodel import Instance, World
     at, c = Poly.atom, Poly.const
+    PDF_, MIX_, PS_ = "src/pyhf/pdf.py", "src/pyhf/mixins.py", "src/pyhf/parameters/paramsets.py"
     mod = repo.module(MLE)
     fit, fpf = mod.funcs.get("fit"), mod.funcs.get("fixed_poi_fit")
     if fit is None or fpf is None:
@@ -635,15 +637,6 @@ def _mle_history(ctx, rid, repo):
         return
     errs = (Undecided, KeyError, TypeError, ValueError, IndexError, AttributeError)
     rec = []
-    cfg = Obj("config", {"poi_index": c(1), "init": [at("si0"), at("si1"), at("si2")], "bounds": [(at("sl0"), at("sh0")), (at("sl1"), at("sh1")), (at("sl2"), at("sh2"))], "fixed": [False, False, True]})
-    pdf = Obj("pdf", {"config": cfg})
-
-    def cfgm(field):
-        def f(recv, a, k):
-            if recv is cfg:
-                return list(cfg.attrs[field])
-            raise NotHandled()
-        return f
 
     def minimize(recv, a, k):
         if not (isinstance(recv, Obj) and recv.name == "optimizer"):
@@ -655,13 +648,30 @@ def _mle_history(ctx, rid, repo):
         return Obj("FITRESULT")
 
     try:
-        w = World({"__strict__": True, "get_backend": (lambda tl_, op_: (lambda a, k: (tl_, op_)))(_tensorlib_obj(), Obj("optimizer")), ".minimize": minimize,
-                   ".suggested_init": cfgm("init"), ".suggested_bounds": cfgm("bounds"), ".suggested_fixed": cfgm("fixed")}, module_env={"log": Obj("log"), "functools": Obj("functools")})
+        psm = repo.module(PS_)
+        mc, mix = repo.cls(PDF_, "_ModelConfig"), repo.cls(MIX_, "_ChannelSummaryMixin")
+        w = World({"__strict__": True, "get_backend": (lambda tl_, op_: (lambda a, k: (tl_, op_)))(_tensorlib_obj(), Obj("optimizer")), ".minimize": minimize},
+                  module_env={"log": Obj("log"), "functools": Obj("functools"), "operator": Obj("operator"), "exceptions": Obj("exceptions"), "pyhf": Obj("pyhf")})
+        w.add_class(mix).add_class(mc)
+        for c_ in psm.classes.values():
+            w.add_class(c_)
         w.base["_validate_fit_inputs"] = lambda a, k: None  # numeric admissibility of the start point: not part of this rule
         for q, g in mod.funcs.items():
             if "." not in q and q not in ("__dir__", "_validate_fit_inputs"):
                 w.add_func(g)
+
+        def pset(cls, name, n, fixed, **extra):
+            return w.new(psm.classes[cls], [], {"name": name, "n_parameters": c(n), "inits": [at(f"{name}_i{j}") for j in range(n)], "bounds": [(at(f"{name}_l{j}"), at(f"{name}_h{j}")) for j in range(n)], "fixed": fixed, "is_scalar": n == 1 and cls == "unconstrained", **extra})
+
+        sets = [("beta", pset("constrained_by_normal", "beta", 2, [False, True], auxdata=[at("ba0"), at("ba1")])), ("mu", pset("unconstrained", "mu", 1, False)), ("nu", pset("unconstrained", "nu", 1, False))]
+        cfg = Instance(mc)
+        w.call_method(cfg, "__init__", [{"channels": [{"name": "c", "samples": [{"name": "s", "data": [at("d0")], "modifiers": [{"name": n_, "type": "normfactor", "data": None} for n_, _ in sets]}]}]}], {})
+        w.call_method(cfg, "set_parameters", [{n_: p_ for n_, p_ in sets}])
+        w.call_method(cfg, "set_poi", ["mu"])
+        pdf = Obj("pdf", {"config": cfg})
         data = Obj("data")
+        names = ["beta_i0", "beta_i1", "mu_i0", "nu_i0"]
+        bnds = [["beta_l0", "beta_h0"], ["beta_l1", "beta_h1"], ["mu_l0", "mu_h0"], ["nu_l0", "nu_h0"]]
 
         def show(kk):
             iv = [str(to_poly(x)) for x in kk.get("init_pars", [])]
@@ -684,25 +694,38 @@ def _mle_history(ctx, rid, repo):
 
         probs = []
         w.call_func(fit, [data, pdf], {})
-        probs.append(expect("first fit, defaults", rec[-1], ["si0", "si1", "si2"], [["sl0", "sh0"], ["sl1", "sh1"], ["sl2", "sh2"]], [False, False, True]))
-        # the documented way of changing a model's fit defaults: assign to the parameter sets' suggested_* (same config OBJECT)
-        cfg.attrs["init"] = [at("ni0"), at("ni1"), at("ni2")]
-        cfg.attrs["bounds"] = [(at("nl0"), at("nh0")), (at("nl1"), at("nh1")), (at("nl2"), at("nh2"))]
-        cfg.attrs["fixed"] = [True, False, False]
-        w.call_func(fit, [data, pdf], {})
-        probs.append(expect("second fit on the same model after its suggested init / bounds / fixed flags were changed", rec[-1], ["ni0", "ni1", "ni2"], [["nl0", "nh0"], ["nl1", "nh1"], ["nl2", "nh2"]], [True, False, False]))
-        w.call_func(fpf, [at("POI"), data, pdf], {})
-        probs.append(expect("fixed-POI fit with the model's (changed) defaults", rec[-1], ["ni0", "POI", "ni2"], [["nl0", "nh0"], ["nl1", "nh1"], ["nl2", "nh2"]], [True, True, False]))
-        mine_i, mine_b, mine_f = [at("ui0"), at("ui1"), at("ui2")], [(at("ul0"), at("uh0")), (at("ul1"), at("uh1")), (at("ul2"), at("uh2"))], [False, False, False]
-        w.call_func(fit, [data, pdf, mine_i, mine_b, mine_f], {})
-        probs.append(expect("fit with explicit start values, bounds and an all-False mask", rec[-1], ["ui0", "ui1", "ui2"], [["ul0", "uh0"], ["ul1", "uh1"], ["ul2", "uh2"]], [False, False, False]))
-        probs = [p_ for p_ in probs if p_]
-        if len(rec) != 4:
-            probs.append(f"{len(rec)} minimisations for 4 fits")
-        if probs:
-            ctx.violated(rid, fit, "fits on one model across a configuration change", "a fit does not use the model's CURRENT suggestions (or the caller's arguments): " + probs[0], expected="start values, bounds and fixed parameters of this call", found=f"{len(probs)} deviation(s)")
+        probs.append(expect("first fit, defaults", rec[-1], names, bnds, [False, True, False, False]))
+        # the documented way of changing a model's fit defaults: assign to the parameter sets' suggested_* (same objects)
+        mu_set, nu_set = sets[1][1], sets[2][1]
+        mu_set.attrs["suggested_init"] = [at("mu_new")]
+        nu_set.attrs["suggested_bounds"] = [(at("nu_nl"), at("nu_nh"))]
+        setter = psm.classes["paramset"].setters.get("suggested_fixed") if hasattr(psm.classes["paramset"], "setters") else None
+        if setter is not None:
+            Interp({"self": nu_set, "value": True}, nu_set.attrs, {}, methods={n: m_.node for n, m_ in w.methods_of(nu_set.cls).items()}, cls_name=nu_set.cls.name, externals=w.externals()).run(A.strip_docstring(setter.node.body))
         else:
-            ctx.holds(rid, f"{MLE}::fit / fixed_poi_fit [4 fits on one model, configuration changed in between]", "each fit starts from, is bounded by and holds constant what the model currently suggests or the caller passed")
+            nu_set.attrs["_suggested_fixed"] = True
+        names2 = ["beta_i0", "beta_i1", "mu_new", "nu_i0"]
+        bnds2 = [["beta_l0", "beta_h0"], ["beta_l1", "beta_h1"], ["mu_l0", "mu_h0"], ["nu_nl", "nu_nh"]]
+        w.call_func(fit, [data, pdf], {})
+        probs.append(expect("second fit on the same model after its suggested init / bounds / fixed flags were changed", rec[-1], names2, bnds2, [False, True, False, True]))
+        w.call_func(fpf, [at("POI"), data, pdf], {})
+        probs.append(expect("fixed-POI fit (POI mu) with the model's defaults", rec[-1], ["beta_i0", "beta_i1", "POI", "nu_i0"], bnds2, [False, True, True, True]))
+        w.call_method(cfg, "set_poi", ["nu"])
+        w.call_func(fpf, [at("POI"), data, pdf], {})
+        probs.append(expect("the same fixed-POI fit after model.config.set_poi('nu')", rec[-1], ["beta_i0", "beta_i1", "mu_new", "POI"], bnds2, [False, True, False, True]))
+        w.call_method(cfg, "set_poi", ["mu"])
+        w.call_func(fpf, [at("POI"), data, pdf], {})
+        probs.append(expect("and again after set_poi('mu')", rec[-1], ["beta_i0", "beta_i1", "POI", "nu_i0"], bnds2, [False, True, True, True]))
+        mine_i, mine_b, mine_f = [at("u0"), at("u1"), at("u2"), at("u3")], [(at(f"ul{j}"), at(f"uh{j}")) for j in range(4)], [False, False, False, False]
+        w.call_func(fit, [data, pdf, mine_i, mine_b, mine_f], {})
+        probs.append(expect("fit with explicit start values, bounds and an all-False mask", rec[-1], ["u0", "u1", "u2", "u3"], [[f"ul{j}", f"uh{j}"] for j in range(4)], [False] * 4))
+        probs = [p_ for p_ in probs if p_]
+        if len(rec) != 6:
+            probs.append(f"{len(rec)} minimisations for 6 fits: a fit was answered from memory although the model's configuration had changed")
+        if probs:
+            ctx.violated(rid, fit, "fits on one model across configuration changes", "a fit does not use the model's CURRENT configuration (suggestions, POI) or the caller's arguments: " + probs[0], expected="start values, bounds, fixed parameters and POI of this call", found=f"{len(probs)} deviation(s)")
+        else:
+            ctx.holds(rid, f"{MLE}::fit / fixed_poi_fit [6 fits on one model; defaults changed, POI moved in between]", "each fit starts from, is bounded by and holds constant what the model currently says or the caller passed")
     except RaisedInFragment as e:
         ctx.violated(rid, fit, "fits on one model", f"raises {e.exc_name} on valid inputs")
     except errs as e:
